@@ -117,6 +117,49 @@ inductive SPc | idle | loaded (p : PState) | waited (p : PState) | done (r : SOu
 inductive CPc | idle | loaded (p : PState) | closedGrpc | done
   deriving DecidableEq, Repr
 
+/-! #### the wait loop of `waitForReady`, state by state
+
+    connState := conn.GetState()
+    if connState == Idle { conn.Connect() }
+    for connState != Ready {
+        if connState == Shutdown { return }                       -- the check, INSIDE the loop (fact c16WaitLoop)
+        if !conn.WaitForStateChange(ctx, connState) { return }    -- false = ctx done
+        connState = conn.GetState()
+    }
+-/
+
+/-- connectivity.State -/
+inductive CS | idle | connecting | transientFailure | ready | shutdown
+  deriving DecidableEq, Repr
+
+/-- where the Shutdown check stands: inside the loop (the code), once before the loop (seeded C16-m7 / C02-m8),
+    nowhere (the code before fix D17c) -/
+inductive Check | inLoop | hoisted | absent
+  deriving DecidableEq, Repr
+
+/-- how the wait ends: it returns after `iters` calls of WaitForStateChange that reported a change; it returns
+    because the (halved) context ended; it never returns -/
+inductive WaitEnd | returned (iters : Nat) | ctxDone | never
+  deriving DecidableEq, Repr
+
+/-- the loop from state `cur`; `fut` = the states the connection goes through from now on, in order (what GetState
+    answers after each reported change); when `fut` is exhausted nothing changes any more. A connection in Shutdown
+    never changes again, whatever `fut` says. `dl` = the context has a deadline. `n` = changes seen so far. -/
+def waitFrom (chk : Check) (dl : Bool) : List CS → CS → Nat → WaitEnd
+  | [], cur, n =>
+    if cur = .ready then .returned n
+    else if chk = .inLoop ∧ cur = .shutdown then .returned n
+    else if dl then .ctxDone else .never                          -- WaitForStateChange blocks until ctx is done
+  | nxt :: rest, cur, n =>
+    if cur = .ready then .returned n
+    else if chk = .inLoop ∧ cur = .shutdown then .returned n
+    else if cur = .shutdown then (if dl then .ctxDone else .never) -- WaitForStateChange(ctx, Shutdown): no change ever
+    else waitFrom chk dl rest nxt (n + 1)
+
+/-- `waitForReady`: first GetState answers `cur` -/
+def waitLoop (chk : Check) (dl : Bool) (cur : CS) (fut : List CS) : WaitEnd :=
+  if chk = .hoisted ∧ cur = .shutdown then .returned 0 else waitFrom chk dl fut cur 0
+
 structure RState where
   /-- `cc.state` -/
   ptr : PState
@@ -150,5 +193,10 @@ def rstep (s : RState) : RLabel → Option RState
       else some { s with grpcClosed := true, cpc := upd s.cpc j .closedGrpc } -- _ = state.conn.Close()
     | .closedGrpc => some { s with ptr := PState.closed, cpc := upd s.cpc j .done }  -- cc.state.Store({nil, Unavailable})
     | .done => none
+
+/-- what the regenerated facts (extract/c16.go over grpcadapter/conn.go) must say: statements of `waitForReady`
+    before the `for`, and inside its body, in source order -/
+def expectedWaitBeforeLoop : List String := ["GetState", "check:Idle", "Connect"]
+def expectedWaitInLoop : List String := ["check:Shutdown", "return", "WaitForStateChange", "return", "GetState"]
 
 end GB.C16.Conn
